@@ -11,8 +11,11 @@ from pathlib import Path
 
 ROOT = Path(__file__).resolve().parent.parent
 SPECS = ROOT / "specs"
-EVID = ROOT / "evidence"
-REPLAYS = ROOT / "replays"
+# evidence and replays describe /repo; a run against another tree (VERIF_REPO: seeded-defect evaluation in a scratch
+# worktree) writes them next to its scratch files instead, so that committed evidence always comes from /repo itself
+_ALT = os.environ.get("VERIF_REPO") not in (None, "", "/repo")
+EVID = (ROOT / ".work" / "alt_tree" / "evidence") if _ALT else (ROOT / "evidence")
+REPLAYS = (ROOT / ".work" / "alt_tree" / "replays") if _ALT else (ROOT / "replays")
 WORK = ROOT / ".work"
 KNOWN = ROOT / "known_findings.json"
 
@@ -83,7 +86,7 @@ class Check:
                 self.known_seen[key] = self.known_seen.get(key, 0) + 1
                 return False
         h = hashlib.sha1((key + json.dumps(replay, sort_keys=True, default=str)).encode()).hexdigest()[:10]
-        REPLAYS.mkdir(exist_ok=True)
+        REPLAYS.mkdir(parents=True, exist_ok=True)
         path = REPLAYS / ("%s-%s.json" % (self.pid, h))
         path.write_text(json.dumps({"property": self.pid, "key": key, "what": what, "replay": replay},
                                    indent=1, default=str))
@@ -145,7 +148,7 @@ class Check:
             "wall_s": round(time.time() - self.t0, 2),
             "violations": len(self.violations),
         }
-        EVID.mkdir(exist_ok=True)
+        EVID.mkdir(parents=True, exist_ok=True)
         (EVID / (self.pid + ".json")).write_text(json.dumps(ev, indent=1, default=str) + "\n")
         shutil.rmtree(self.work, ignore_errors=True)
         if self.violations:
